@@ -199,6 +199,29 @@ func TestC05(t *testing.T) {
 			kinds = append(kinds, k)
 		}
 	}
+	// thorough tier: ENUMERATE (cause x stop point x pacing x handler mode) on three fixed history shapes
+	if thorough() {
+		n := enumStops(func(c *StopCase) bool {
+			journal("C05", "c05", c)
+			obs, sig, err := checkC05(c)
+			nt := obs.StateReached || !obs.DumpSeen
+			rec.Case(nt, c, append(stopClasses(c, obs), "enumerated")...)
+			if obs.Inconclusive != "" {
+				inconclusive++
+				rec.Class("inconclusive")
+			}
+			if err != nil {
+				rec.Violation("c05", c, sig, err)
+				if !knownSig(sig) {
+					t.Errorf("C05 violation (enumerated scenario): %v", err)
+					return false
+				}
+			}
+			return true
+		}, kinds)
+		rec.Note("enumerated %d scenarios in this shard", n)
+		rec.MarkExhaustive("cause x every stop point x pacing x handler mode (x gated call) on three fixed history shapes (thorough tier)")
+	}
 	rapidCheck(t, func(rt *rapid.T) {
 		c := drawStop(rt, o, kinds)
 		journal("C05", "c05", c)
@@ -226,4 +249,85 @@ func TestC05(t *testing.T) {
 	if inconclusive > 0 {
 		fmt.Printf("INCONCLUSIVE: %d scenarios could not be judged (machine starved?)\n", inconclusive)
 	}
+}
+
+// stopShapes are the fixed histories of the enumerated part.
+func stopShapes() []*hist.History {
+	return []*hist.History{seqHistory([]int{0}, 1), seqHistory([]int{1, 0}, 2), seqHistory([]int{5, 3, 4}, 5)}
+}
+
+// enumStops enumerates (shape x cause x stop point x pacing x handler mode x gated call),
+// sharded by index; f returns false to stop.
+func enumStops(f func(*StopCase) bool, kinds []string) int {
+	idx, n := 0, 0
+	for _, h := range stopShapes() {
+		l, err := h.Lay()
+		if err != nil {
+			continue
+		}
+		payloads, _, _ := l.Served(h.FirstFile, h.Base)
+		nsteps := len(payloads) + 1
+		ntx := len(l.Expected(hist.Pos{File: h.FirstFile, Off: h.Base}, 0))
+		for _, k := range kinds {
+			var points []int
+			switch {
+			case isMasterFault(k):
+				lo := 0
+				if k == "invalid" || k == "unsupported" || k == "undecodable" {
+					lo = 2
+				}
+				for i := lo; i < nsteps; i++ {
+					points = append(points, i)
+				}
+			case k == "cancel_out":
+				for i := 0; i <= nsteps; i++ {
+					points = append(points, i)
+				}
+			case k == "cancel_in" || k == "handler_err":
+				for i := 1; i <= ntx; i++ {
+					points = append(points, i)
+				}
+			case k == "mapper_err" || k == "mapper_cols":
+				points = []int{1}
+			case k == "deadline":
+				points = []int{0, 1, 2, 4, 8}
+			default:
+				points = []int{0}
+			}
+			for _, at := range points {
+				for pacing := 0; pacing <= 1; pacing++ {
+					for mode := 0; mode <= 2; mode++ {
+						gates := []int{0}
+						if mode == HandlerGated {
+							gates = nil
+							for g := 1; g <= ntx; g++ {
+								gates = append(gates, g)
+							}
+						}
+						if k == "cancel_gate" && mode != HandlerGated {
+							continue
+						}
+						for _, g := range gates {
+							idx++
+							if idx%envNShards != envShard {
+								continue
+							}
+							c := &StopCase{H: h, Fault: Fault{Kind: k, At: at, Sub: idx, ErrCode: 1236, Msg: "enumerated master error"}, Pacing: pacing, Handler: mode, GateCall: g, SlowN: 3}
+							if k == "mapper_cols" {
+								c.Fault.Sub = -1
+							}
+							if k == "handler_err" && mode == HandlerGated {
+								c.GateCall = at
+							}
+							n++
+							if !f(c) {
+								return n
+							}
+						}
+					}
+				}
+			}
+		}
+	}
+	return n
 }
